@@ -52,18 +52,18 @@ CHECKS["C05"] = {
     "explanation": "index round trip theorem + round-trip oracle",
 }
 CHECKS["C13"] = {
-    "families": ["xw", "life"],
+    "families": ["xw", "life", "lwm"],
     "trusted_base": [ZW + "; plus ZErrSurfaced/ZErrNotClosed: the compressor returns an error (never xflate's private closed error) when the sink refused its bytes"],
-    "assumptions": ["bzip2.Writer and meta.Writer on their own are not modelled at the API level: decided by the oracle sweep (family life)"],
-    "level_text": "partial: full for xflate.Writer (incl. the meta encoder's block writes) - Lean theorems C13_sink_failure_latched / C13_no_false_success (once the sink refused bytes an error is latched that is not 'closed', for every history: Close never returns nil), C13_keeps_failing, C13_errors_latched, C13_sink_append_only, C13_counters, C13_input_counter, and C13_bitwriter_exact for prefix.Writer without faults. bzip2.Writer and meta.Writer: oracle sweep over random op sequences with hard/short, once/forever faults (which found and led to the repair of bzip2.Writer.Close reporting success after a failed Close, D9).",
-    "level_note": "Trusted: Lean kernel; correspondence of the xflate.Writer model incl. ~1.3k fault scenarios per quick run; the fault model is a sink that fails at a byte position (hard or short write), once or forever.",
+    "assumptions": ["the API-level models of bzip2.Writer and meta.Writer (Bzip2/WriterApi.lean, Meta/WriterApi.lean) are hand-written and tied to /repo by the call-by-call correspondence of family lwm (and the lw scenarios of family life); sinks attached by Reset have not failed before; the >20000-byte scenarios of family life and the thorough low-entropy 30000-byte job stay oracle-only (the Lean BWT is a rotation sort, ~15 s per full 100000-byte block; one full-block scenario per quick run, four per thorough run)"],
+    "level_text": "full on the models of all three writers. xflate.Writer (incl. the meta encoder's block writes): C13_sink_failure_latched / C13_no_false_success, C13_keeps_failing, C13_errors_latched, C13_sink_append_only, C13_counters, C13_input_counter, C13_bitwriter_exact. bzip2.Writer and meta.Writer (API-level models over the same adversarial sink, every Write/Close/Reset sequence, every adversary): C13_bzip2_sink_failure_latched / C13_meta_sink_failure_latched (latch invariant), C13_bzip2_failed_forever / C13_meta_failed_forever (after the sink refused bytes every later Write/Close returns an error, Close never nil, until Reset), C13_*_errors_latched, C13_bzip2_no_false_success + C13_bzip2_done_decodes (done => sink = what it held + encodeStream level (accepted data), which the format specification decodes to the accepted data), C13_meta_no_false_success (sink = blocks of Meta.encode), C13_*_close_nil_complete, C13_bzip2_counters / C13_meta_counters (InputOffset = bytes accepted, OutputOffset = bytes the sink accepted, after every call incl. failing ones), C13_bzip2_sink_prefix / C13_meta_sink_prefix (identical to the fault-free bytes until the first refusal; a prefix of them afterwards - for bzip2 under a sink that keeps failing: bzip2.Writer calls wr.Flush once more after a recovered write failure, so a sink that fails only once can receive further bytes in the same call). The oracle sweep (family life) and the call-by-call model correspondence (family lwm: fault at every byte position x hard/short x once/forever x token/Closed-coded error) run on every check.",
+    "level_note": "Trusted: Lean kernel; correspondence of the xflate.Writer model incl. ~1.3k fault scenarios per quick run, and of the bzip2.Writer / meta.Writer API models on ~3.8k scenarios per quick run (family lwm + the lw scenarios of family life: per call count, error class, InputOffset, OutputOffset, NumBlocks, and the exact bytes every sink received); the fault model is a sink that fails at a byte position (hard or short write), once or forever, with a token or a Closed-coded error.",
     "explanation": "latch invariant theorems + fault-injection oracle",
 }
 CHECKS["C18"] = {
-    "families": ["life", "xw", "xr"],
-    "trusted_base": ["API-level models exist for xflate.Writer and xflate.Reader only; for the other six types the lifecycle is decided by the exhaustive call-sequence sweep; guard shapes of all types are regenerated facts"],
+    "families": ["life", "xw", "xr", "lwm"],
+    "trusted_base": ["API-level models exist for xflate.Writer, xflate.Reader, bzip2.Writer and meta.Writer (the last two tied to /repo by family lwm); for the other four types the lifecycle is decided by the exhaustive call-sequence sweep; guard shapes of all types are regenerated facts"],
     "assumptions": [],
-    "level_text": "partial: Lean theorems C18_writer_closed / C18_writer_closed_forever (after a successful Close every Write/Flush is refused with the closed error, Close is idempotent, the state and hence the sink never change again, for every continuation), C18_close_latches, C18_reader_closed (xflate.Reader), C18_guards_in_source (regenerated from /repo). No-panic and closed-means-closed for flate/brotli/bzip2/meta Readers and bzip2/meta Writers: exhaustive depth-3 (quick) / depth-4 (thorough) call sequences under recover.",
+    "level_text": "partial: Lean theorems C18_writer_closed / C18_writer_closed_forever (after a successful Close every Write/Flush is refused with the closed error, Close is idempotent, the state and hence the sink never change again, for every continuation), C18_close_latches, C18_reader_closed (xflate.Reader), C18_bzip2_closed / C18_meta_closed + C18_*_close_closes (API-level models of bzip2.Writer and meta.Writer: Close nil => done with the closed marker; then Write refused with the closed error, Close nil again, state and sink unchanged for every continuation without Reset; the models are total functions, so no call order reaches a panic), C18_guards_in_source (regenerated from /repo). No-panic and closed-means-closed for flate/brotli/bzip2/meta Readers and (as oracle) bzip2/meta Writers: exhaustive depth-3 (quick) / depth-4 (thorough) call sequences under recover.",
     "level_note": "Trusted: Lean kernel; regenerated guard facts; the sweep is sampling for the six unmodelled types.",
     "explanation": "closed-state theorems + exhaustive short call sequences",
 }
@@ -145,10 +145,10 @@ CHECKS["C12"] = {
     "explanation": "durability and cut theorems + cut sweep",
 }
 CHECKS["C14"] = {
-    "families": ["life", "win", "cc", "fl"],
+    "families": ["life", "win", "cc", "fl", "lwm"],
     "trusted_base": ["Reset field lists are regenerated from /repo (go/ast) and pinned by theorem", "behavioural equality after Reset is a theorem for the flate.Reader model only (tied to /repo by the flrr correspondence lines: real Reader, earlier stream partly read, Reset, schedule of Reads, against the model doing the same); for the other types it is a sweep (dirty history, Reset, compare with a fresh instance)"],
     "assumptions": [],
-    "level_text": "partial: full for flate.Reader on the Go-shaped model - C14_flate_reset_fresh / C14_flate_reset_eq_new: from ANY earlier state of the reader (stream finished, abandoned with pending output or a copy in progress, failed; any window capacity and any stale window contents, which Reset keeps) Reset onto a new byte string gives, for every Read schedule, exactly the RFC 1951 specification's output and error for that string alone, i.e. what a new reader gives. Further: C14_window_fresh (the reused LZ77 window - the one carried buffer whose contents could matter - does not influence the next stream, for every previous capacity), C14_bitreader_fresh, C14_bzip2_reader_reset + Facts.reset_carried (every Reset of /repo carries allocation-bearing and configuration fields only; regenerated on every run - D4 was bzip2.Reader carrying its half-read block). Whole-instance indistinguishability for the other 7 types: sweep (read to end / abandoned / corrupt / closed / failed sink, then Reset, against a fresh instance).",
+    "level_text": "partial: full for flate.Reader on the Go-shaped model - C14_flate_reset_fresh / C14_flate_reset_eq_new: from ANY earlier state of the reader (stream finished, abandoned with pending output or a copy in progress, failed; any window capacity and any stale window contents, which Reset keeps) Reset onto a new byte string gives, for every Read schedule, exactly the RFC 1951 specification's output and error for that string alone, i.e. what a new reader gives. Full also for bzip2.Writer and meta.Writer on their API-level models - C14_bzip2_writer_reset / C14_bzip2_writer_reset_new / C14_meta_writer_reset: after Reset the whole state equals that of a fresh writer on the new sink, whatever the history (tied to /repo by family lwm, whose scenarios Reset after success and after failure onto fresh and failing sinks). Further: C14_window_fresh (the reused LZ77 window - the one carried buffer whose contents could matter - does not influence the next stream, for every previous capacity), C14_bitreader_fresh, C14_bzip2_reader_reset + Facts.reset_carried (every Reset of /repo carries allocation-bearing and configuration fields only; regenerated on every run - D4 was bzip2.Reader carrying its half-read block). Whole-instance indistinguishability for the other 5 types: sweep (read to end / abandoned / corrupt / closed / failed sink, then Reset, against a fresh instance).",
     "level_note": "Trusted: Lean kernel; extractor; sweep = sampling.",
     "explanation": "regenerated Reset facts + window freshness theorem + dirty-history sweep",
 }
